@@ -1813,3 +1813,131 @@ def rf148(run):
     if n < 3:
         raise F.AnalysisBroken('RF148: only %d operand exchanges found in SSA passes' % n)
     return n
+
+
+# ---------------------------------------------------------------------------------------------
+# RF178: over a call, clobbers are killed before the implicit argument registers become live
+# ---------------------------------------------------------------------------------------------
+
+def rf178(run):
+    rule = 'RF178'
+    run.rule(rule, 'generator, backward liveness scans: a call clobbers the call-used hard registers and *uses* the registers recorded in '
+                   'call_hard_reg_args (rax with the vector-register count of a variadic call, the registers carrying small by-value blocks) — '
+                   'they are no operands of the call instruction.  In every function that applies both to one live set, the kill '
+                   '(`bitmap_and_compl (live, live, call_used_hard_regs[…])`) is never reachable after the gen '
+                   '(`bitmap_ior (live, live, …call_hard_reg_args)`) within the same instruction: all argument registers are call-used, so '
+                   'the wrong order wipes the uses and dead-code elimination deletes `mov rax, n` and the block loads')
+    tu = run.tu('gen')
+    n = 0
+    for g in tu.func_list:
+        if g.body is None or not g.file.endswith('mir-gen.c'):
+            continue
+        gens, kills = [], []
+        for x in g.walk():
+            if x['k'] != 'CallExpr':
+                continue
+            a = F.call_args(x)
+            if x.get('callee') == 'bitmap_ior' and len(a) == 3 and 'call_hard_reg_args' in F.src(a[2]):
+                gens.append((F.src(F.strip(a[0])), x))
+            if x.get('callee') == 'bitmap_and_compl' and len(a) == 3 and 'call_used_hard_regs' in F.src(a[2]):
+                kills.append((F.src(F.strip(a[0])), x))
+        pairs = [(gx, kx) for gs, gx in gens for ks, kx in kills if gs == ks]
+        if not pairs:
+            continue
+        cfg = g.cfg
+        run.functions_analysed.add(('gen', g.name))
+        steps = set()
+        for lp in g.walk():
+            if lp['k'] == 'ForStmt' and lp['c'][2] is not None:
+                b = cfg.block_of(lp['c'][2])
+                if b is not None:
+                    steps.add(b)
+        for gx, kx in pairs:
+            gb, kb = cfg.block_of(gx), cfg.block_of(kx)
+            bad = False
+            if gb is not None and kb is not None:
+                if gb == kb:
+                    order = [y for el in cfg.blocks[gb].elems for y in F.walk(el) if y is gx or y is kx]
+                    bad = bool(order) and order[0] is gx
+                else:
+                    bad = kb in cfg.reachable_from(gb, avoid=lambda b: b in steps)
+            n += 1
+            run.ob(rule, (g.name, gx['l'], kx['l']), not bad, {'function': g.name, 'kill at line': kx['l'], 'gen at line': gx['l']})
+            if bad:
+                run.violation(rule, g, 'implicit call arguments killed', '%s makes the implicit argument registers of a call live (line %d) and kills '
+                              'the call-used registers afterwards (line %d) in its backward scan: the uses are wiped — the set-up of rax for a '
+                              'variadic call and the loads of register-passed blocks look dead and are removed at -O1 and above' %
+                              (g.name, gx['l'], kx['l']), line=gx['l'])
+    run.control(rule, 'a scan with both a kill and a gen found (dead_code_elimination)', n >= 1)
+    return n
+
+
+# ---------------------------------------------------------------------------------------------
+# RF179: per-instruction scratch of the generator is assigned in every iteration
+# ---------------------------------------------------------------------------------------------
+
+RF179_TABLE = [
+    ('gen', 'process_bb_conflicts', 'ignore_scan_var',
+     'the source of a register move does not conflict with its destination — for that one move; a value kept from the instruction handled '
+     'before (the walk is backward) exempts the same variable from conflicts with every earlier definition, the coalescer then merges '
+     'two live ranges that overlap'),
+]
+
+
+def rf179(run):
+    rule = 'RF179'
+    run.rule(rule, 'generator loops over instructions that keep a fact about *the current instruction* in a local (frozen table, confirmed by '
+                   'reading): on every path from the start of an iteration to a read of the local there is an assignment of it in the same '
+                   'iteration.  An initialiser at the declaration does not count — it covers the first iteration only')
+    n = 0
+    for u, fn, var, why in RF179_TABLE:
+        tu = run.tu(u)
+        g = tu.func(fn)
+        if g is None or g.body is None:
+            raise F.AnalysisBroken('%s not found' % fn)
+        run.functions_analysed.add((u, fn))
+        cfg = g.cfg
+        loops = [l for l in g.walk() if l['k'] == 'ForStmt' and any(y['k'] == 'DeclRefExpr' and y['n'] == var for y in F.walk(l['c'][3]))]
+        if not loops:
+            raise F.AnalysisBroken('%s: no loop uses %s' % (fn, var))
+        lp = loops[0]
+        body = lp['c'][3]
+        inner = {y['i'] for y in F.walk(body)}
+        defs = [x for x in F.walk(body) if x['k'] == 'BinaryOperator' and x['op'] == '=' and F.src(F.strip(x['c'][0])) == var]
+        lhs = {F.strip(x['c'][0])['i'] for x in defs}
+        reads = [y for y in F.walk(body) if y['k'] == 'DeclRefExpr' and y['n'] == var and y['i'] not in lhs]
+        if not reads:
+            raise F.AnalysisBroken('%s: %s is never read in the loop' % (fn, var))
+        # the first block of the body
+        first = None
+        for st in (F.kids(body) if body['k'] == 'CompoundStmt' else [body]):
+            first = cfg.block_of(st)
+            if first is None:
+                for y in F.walk(st):
+                    first = cfg.block_of(y)
+                    if first is not None:
+                        break
+            if first is not None:
+                break
+        if first is None:
+            raise F.AnalysisBroken('%s: start of the loop body not found in the CFG' % fn)
+        defb = {cfg.block_of(x) for x in defs}
+        # a definition in the first block in front of everything else covers all paths
+        covered_first = False
+        if first in defb:
+            els = cfg.blocks[first].elems
+            for k, el in enumerate(els):
+                ids = {y['i'] for y in F.walk(el)}
+                if any(F.strip(x['c'][0])['i'] in ids for x in defs):
+                    covered_first = not any(r['i'] in {y['i'] for e2 in els[:k] for y in F.walk(e2)} for r in reads)
+                    break
+        reach = set() if covered_first else cfg.reachable_from(first, avoid=lambda b: b in defb and b != first)
+        for r in reads:
+            b = cfg.block_of(r)
+            ok = covered_first or b is None or b not in reach or (b in defb and b != first)
+            n += 1
+            run.ob(rule, (fn, var, r['l']), ok, {'function': fn, 'variable': var, 'read at line': r['l'], 'assigned earlier in the same iteration on every path': ok})
+            if not ok:
+                run.violation(rule, g, 'stale %s' % var, '%s reads `%s` (line %d) on a path from the start of the loop iteration that does not assign '
+                              'it: %s' % (fn, var, r['l'], why), line=r['l'])
+    return n
